@@ -276,6 +276,8 @@ type gen struct {
 	idf  otto.Value
 	sunk otto.Value
 	seq  seqState
+	reop int
+	ren  int64
 }
 
 func (g *gen) intValue(kind string) gscalar {
@@ -835,6 +837,7 @@ func runC15(env *Env) {
 	_, err = g.vm.Run(describePrelude)
 	Must(err)
 	g.installSeqCallbacks()
+	g.installReentry()
 	_, err = g.vm.Run(handlePrelude)
 	Must(err)
 	Must(g.vm.Set("sink", func(call otto.FunctionCall) otto.Value {
@@ -861,6 +864,13 @@ func runC15(env *Env) {
 	g.callSeqCase(1)
 	g.callSeqCase(2)
 	g.depthHistCase(true)
+	for t := 1; t <= 3; t++ {
+		g.kindHistCase(t)
+	}
+	for fr := 0; fr < 6; fr++ {
+		g.reentryCase(0, fr)
+		g.reentryCase(7, fr)
+	}
 	for sp := 0; sp < 3; sp++ {
 		g.objHandleCase(sp, sp)
 	}
@@ -888,7 +898,14 @@ func runC15(env *Env) {
 		case k < 15:
 			g.callSeqCase(0)
 			continue
-		case k < 16:
+		case k < 17:
+			if r.Intn(2) == 0 {
+				g.kindHistCase(0)
+			} else {
+				g.reentryCase(r.Intn(11), r.Intn(6))
+			}
+			continue
+		case k < 18:
 			if r.Intn(3) == 0 {
 				g.depthHistCase(false)
 			} else {
@@ -2591,4 +2608,241 @@ func (g *gen) recordContainer() gtnode {
 		v = pv
 	}
 	return gtnode{"(GTStruct " + Clist(fields) + ")", v}
+}
+
+// ====================== one binding, many numerically equal Go values ======================
+
+func (g *gen) kindGroup() []gscalar {
+	r := g.env.Rng
+	i := func(k string, v int64) gscalar { return gscalar{kind: k, i: v} }
+	u := func(k string, v uint64) gscalar { return gscalar{kind: k, u: v} }
+	f := func(v float64) gscalar { return gscalar{kind: "float64", f64: v} }
+	f32 := func(v float32) gscalar { return gscalar{kind: "float32", f32: v} }
+	nz := math.Copysign(0, -1)
+	groups := [][]gscalar{
+		{i("int8", 1), f(1), u("uint16", 1), i("int64", 1), f32(1), u("uint", 1), i("int", 1), u("uint8", 1), i("int32", 1), {kind: "bool", b: true}, {kind: "string", s: "1"}},
+		{f(1 << 53), u("uint64", 1<<53+1), i("int64", 1<<53+1), i("int64", 1<<53), u("uint64", 1<<53), u("uint", 1<<53+1), i("int", 1<<53), f32(1 << 53)},
+		{i("int8", 0), f(0), f(nz), u("uint64", 0), f32(0), f32(float32(nz)), i("int64", 0), {kind: "bool", b: false}, {kind: "nil"}, {kind: "string", s: ""}, {kind: "string", s: "0"}},
+		{f(math.NaN()), f32(float32(math.NaN())), {kind: "nil"}, f(math.NaN()), {kind: "string", s: "NaN"}},
+		{u("uint64", 1<<63), f(1 << 63), u("uint64", 1<<63+1), u("uint", 1<<63+1024), u("uint64", 1<<63+1024), f32(1 << 63), u("uint64", 1<<63-1), i("int64", 1<<63-1)},
+		{u("uint8", 255), i("int16", 255), f(255), u("uint32", 255), i("int64", 255), f32(255), u("uint16", 255)},
+		{i("int8", -1), i("int64", -1), f(-1), i("int16", -1), i("int32", -1), f32(-1), i("int", -1)},
+		{i("int64", -(1 << 63)), f(-(1 << 63)), i("int", -(1 << 63)), i("int64", -(1<<63 - 1)), f32(-(1 << 63))},
+		{f(math.Inf(1)), f32(float32(math.Inf(1))), f(math.MaxFloat64), f(math.Inf(1))},
+	}
+	return Pick(r, groups)
+}
+
+func (g *gen) kindHistCase(pinned int) {
+	r := g.env.Rng
+	vm := g.vm
+	target := r.Intn(3)
+	group := g.kindGroup()
+	if pinned > 0 {
+		target = pinned - 1
+	}
+	RunJS(vm, "try { delete kh } catch (e) {}; kobj = {}; karr = [];")
+	ref := []string{"kh", "kobj.p", "karr[0]"}[target]
+	obj := func() *otto.Object {
+		v, _ := vm.Get([]string{"", "kobj", "karr"}[target])
+		return v.Object()
+	}
+	prop := []string{"kh", "p", "0"}[target]
+	var ops, obs, txt []string
+	nops := r.Intn(8) + 3
+	for k := 0; k < nops; k++ {
+		choice := r.Intn(10)
+		if pinned > 0 {
+			choice = []int{0, 9, 0, 9, 5, 8, 0, 9}[k%8]
+		}
+		switch {
+		case choice < 4: // Go write
+			s := Pick(r, group)
+			if pinned > 0 {
+				s = group[k/2%len(group)]
+			}
+			var err error
+			p := guard(func() {
+				if target == 0 {
+					err = vm.Set(prop, s.plain())
+				} else {
+					err = obj().Set(prop, s.plain())
+				}
+			})
+			ops = append(ops, "KSet "+s.coq())
+			txt = append(txt, fmt.Sprintf("Go set %s = %s (err %v panic %v)", ref, s.text(), err, p))
+		case choice < 6: // script write of the counterpart's literal
+			s := Pick(r, group)
+			if !s.isNumber() {
+				continue
+			}
+			o := RunJS(vm, ref+" = "+s.literal())
+			ops = append(ops, "KSetScript "+s.coq())
+			txt = append(txt, fmt.Sprintf("script %s = %s (err %v)", ref, s.literal(), o.Err))
+		default: // read
+			via := choice % 2
+			var v otto.Value
+			var err error
+			p := guard(func() {
+				if via == 0 {
+					if target == 0 {
+						v, err = vm.Get(prop)
+					} else {
+						v, err = obj().Get(prop)
+					}
+				} else {
+					o := RunJS(vm, "typeof kh === 'undefined' && "+fmt.Sprint(target == 0)+" ? undefined : "+ref)
+					v, err = o.Val, o.Err
+				}
+			})
+			ob, shown := "OPanic", "panic"
+			if !p && err != nil {
+				ob, shown = fmt.Sprintf("(OErr %d)", errClassOf(err)), err.Error()
+			}
+			if !p && err == nil {
+				var x interface{}
+				if !guard(func() { x, _ = v.Export() }) {
+					if term, known := exportedScalar(x); known {
+						ob = "(OVal " + term + ")"
+					} else {
+						ob = "(OErr 8)"
+					}
+					shown = fmt.Sprintf("%#v (%T)", x, x)
+				}
+			}
+			ops = append(ops, fmt.Sprintf("KRead %d", via))
+			obs = append(obs, ob)
+			txt = append(txt, fmt.Sprintf("%s read %s -> Export %s", []string{"Go", "script"}[via], ref, shown))
+		}
+	}
+	g.env.Add(fmt.Sprintf("CKindHist %d %s %s", target, Clist(ops), Clist(obs)), "kind history: "+strings.Join(txt, "; "), "kind-history", true)
+}
+
+// ====================== host entry points used re-entrantly under shadowing frames ======================
+
+const reentryPrelude = `
+function pick(x) { return "global pick(" + x + ")" }
+var gv = "global gv", gs = "global gs";
+var holder2 = { pick: function(x) { return "holder pick(" + x + ")" } };
+function mk(tag) { return function(x) { return tag + " pick(" + x + ")" } }
+function fin(r, gs) { return r + "\u0001" + gs }
+function frame0(pick, gv, gs, src) { return fin(src ? eval(src) : hostop(), gs) }
+function frame1(src) { var pick = mk("local"), gv = "local gv", gs = "local gs"; return fin(src ? eval(src) : hostop(), gs) }
+function frame2(src) { with ({pick: mk("with"), gv: "with gv", gs: "with gs"}) { return fin(src ? eval(src) : hostop(), gs) } }
+function frame3(src) { try { throw mk("catch") } catch (pick) { try { throw "catch gv" } catch (gv) { try { throw "catch gs" } catch (gs) { return fin(src ? eval(src) : hostop(), gs) } } } }
+function frame4(src) { var pick = mk("nested"), gv = "nested gv", gs = "nested gs"; return (function() { return fin(src ? eval(src) : hostop(), gs) })() }
+function frame5(src) { return fin(src ? eval(src) : hostop(), gs) }
+`
+
+var reopNames = []string{`Otto.Call("pick", nil, n)`, `Otto.Call("pick", this, n)`, `Value.Call(pick)`, `Object.Call(holder2, "pick")`, `Otto.Get("gv")`,
+	`Otto.Set("gs") + Otto.Get("gs")`, `Otto.Run("pick(n)")`, `Otto.Eval("pick(n)")`, `Otto.Run("gv")`, `Otto.Eval("gv")`, `Otto.Call("holder2.pick", nil, n)`}
+
+// one host operation on the given handle (at rest, or from inside the native callback)
+func hostOperation(vm *otto.Otto, op int, n int64) (res string) {
+	defer func() {
+		if r := recover(); r != nil {
+			res = fmt.Sprintf("!panic %v", r)
+		}
+	}()
+	str := func(v otto.Value, err error) string {
+		if err != nil {
+			return fmt.Sprintf("!err %d", errClassOf(err))
+		}
+		return v.String()
+	}
+	switch op {
+	case 0:
+		return str(vm.Call("pick", nil, n))
+	case 1:
+		return str(vm.Call("pick", "T", n))
+	case 2:
+		f, err := vm.Get("pick")
+		if err != nil {
+			return str(f, err)
+		}
+		return str(f.Call(otto.UndefinedValue(), n))
+	case 3:
+		h, err := vm.Get("holder2")
+		if err != nil {
+			return str(h, err)
+		}
+		return str(h.Object().Call("pick", n))
+	case 4:
+		return str(vm.Get("gv"))
+	case 5:
+		if err := vm.Set("gs", fmt.Sprintf("set %d", n)); err != nil {
+			return str(otto.Value{}, err)
+		}
+		return str(vm.Get("gs"))
+	case 6:
+		return str(vm.Run(fmt.Sprintf("pick(%d)", n)))
+	case 7:
+		return str(vm.Eval(fmt.Sprintf("pick(%d)", n)))
+	case 8:
+		return str(vm.Run("gv"))
+	case 9:
+		return str(vm.Eval("gv"))
+	default:
+		return str(vm.Call("holder2.pick", nil, n))
+	}
+}
+
+func (g *gen) installReentry() {
+	_, err := g.vm.Run(reentryPrelude)
+	Must(err)
+	Must(g.vm.Set("hostop", func(call otto.FunctionCall) otto.Value {
+		r, _ := otto.ToValue(hostOperation(call.Otto, g.reop, g.ren))
+		return r
+	}))
+}
+
+func (g *gen) reentryCase(op, frame int) {
+	r := g.env.Rng
+	vm := g.vm
+	n := int64(r.Intn(1000))
+	g.reop, g.ren = op, n
+	frameCall := func(src string) string {
+		arg := "undefined"
+		if src != "" {
+			arg = jsStrLit(src)
+		}
+		if frame == 0 {
+			return fmt.Sprintf(`frame0(mk("param"), "param gv", "param gs", %s)`, arg)
+		}
+		return fmt.Sprintf("frame%d(%s)", frame, arg)
+	}
+	obStr := func(s string) string {
+		if strings.HasPrefix(s, "!") {
+			return "(OErr 8)"
+		}
+		return "(OVal " + cbytes(s) + ")"
+	}
+	RunJS(vm, `gs = "global gs"`)
+	var ref string
+	isEval := op == 7 || op == 9
+	if isEval { // the reference is the in-language eval in the same frame
+		src := "gv"
+		if op == 7 {
+			src = fmt.Sprintf("pick(%d)", n)
+		}
+		o := RunJS(vm, frameCall(src))
+		ref = "!fail"
+		if o.Panic == nil && o.Err == nil {
+			ref = strings.Split(o.Val.String(), "\x01")[0]
+		}
+	} else {
+		ref = hostOperation(vm, op, n)
+	}
+	RunJS(vm, `gs = "global gs"`)
+	o := RunJS(vm, frameCall(""))
+	reent, local := "!fail", "!fail"
+	if o.Panic == nil && o.Err == nil {
+		parts := strings.SplitN(o.Val.String(), "\x01", 2)
+		reent = parts[0]
+		if len(parts) > 1 {
+			local = parts[1]
+		}
+	}
+	g.env.Add(fmt.Sprintf("CReentry %d %d %d %s %s %s", op, frame, n, obStr(ref), obStr(reent), obStr(local)),
+		fmt.Sprintf("re-entrant %s with n=%d from a native callback under %s: reference %q, re-entrant %q, the frame's own gs afterwards %q", reopNames[op], n, frameCall(""), ref, reent, local), "reentry", true)
 }
